@@ -454,9 +454,9 @@ func (g *Gen) typeInv(term string, t types.Type, old bool) string {
 func (g *Gen) sliceWF(s string, old bool) string {
 	var c string
 	if g.bv {
-		c = fmt.Sprintf("(and (bvsle (_ bv0 64) (off %s)) (bvsle (_ bv0 64) (len %s)) (bvsle (len %s) (cap %s)) (bvslt (cap %s) (_ bv4611686018427387904 64)) (bvslt (off %s) (_ bv4611686018427387904 64)) (<= 0 (base %s)) (=> (= (base %s) 0) (= (cap %s) (_ bv0 64)))", s, s, s, s, s, s, s, s, s)
+		c = fmt.Sprintf("(and (bvsle (_ bv0 64) (off %s)) (bvsle (_ bv0 64) (len %s)) (bvsle (len %s) (cap %s)) (bvslt (cap %s) (_ bv281474976710656 64)) (bvslt (off %s) (_ bv281474976710656 64)) (<= 0 (base %s)) (=> (= (base %s) 0) (= (cap %s) (_ bv0 64)))", s, s, s, s, s, s, s, s, s)
 	} else {
-		c = fmt.Sprintf("(and (<= 0 (off %s)) (<= 0 (len %s)) (<= (len %s) (cap %s)) (< (cap %s) 4611686018427387904) (< (off %s) 4611686018427387904) (<= 0 (base %s)) (=> (= (base %s) 0) (= (cap %s) 0))", s, s, s, s, s, s, s, s, s)
+		c = fmt.Sprintf("(and (<= 0 (off %s)) (<= 0 (len %s)) (<= (len %s) (cap %s)) (< (cap %s) 281474976710656) (< (off %s) 281474976710656) (<= 0 (base %s)) (=> (= (base %s) 0) (= (cap %s) 0))", s, s, s, s, s, s, s, s, s)
 	}
 	if old {
 		c += fmt.Sprintf(" (< (base %s) %s)", s, refBound)
@@ -604,7 +604,9 @@ func (g *Gen) setComp(c, term string) {
 	old := g.heapGet(c)
 	n := g.define("H_"+c, g.comps[c], term)
 	g.cur[c] = n
-	if g.pristine[old] {
+	// "pristine" (every reference stored in this version predates the function) survives a store
+	// only for components that cannot hold references at all
+	if s := g.comps[c]; g.pristine[old] && !strings.Contains(strings.TrimPrefix(s, "(Array Int "), "Int") && !strings.Contains(s, "Slice") && !strings.Contains(s, "S_") {
 		g.pristine[n] = true
 	}
 }
@@ -729,7 +731,15 @@ func (g *Gen) globalRef(x *ssa.Global) string {
 		globalIds[key] = id
 	}
 	// globals live at distinct small positive refs 1..N (below refBound, distinct from each other)
-	return fmt.Sprintf("%d", id)
+	ref := fmt.Sprintf("%d", id)
+	// package-level error sentinels (var ErrX = errors.New(...)): non-nil and pairwise distinct at entry
+	if et := x.Type().(*types.Pointer).Elem(); types.TypeString(et, nil) == "error" && !g.prelSeen["errsentinel:"+key] {
+		g.prelSeen["errsentinel:"+key] = true
+		c, _ := g.cellComp(et)
+		g.assumeAlways(fmt.Sprintf("(= (select %s %s) %d)", g.entry[c], ref, 900000000+id))
+		g.assumptions["package-level error sentinels (var Err... = errors.New(...)) are non-nil, pairwise distinct and never reassigned"] = true
+	}
+	return ref
 }
 
 func (g *Gen) constTerm(x *ssa.Const) string {
